@@ -218,21 +218,26 @@ pub fn prim(store: &LpgStore, weight_property: Option<&str>, start: Option<NodeI
     }
 
     while let Some(MinScored(weight, (src, dst, edge_id))) = heap.pop() {
-        // Skip if target already in tree
-        if *in_tree.get(&dst).unwrap_or(&false) {
-            continue;
-        }
+        // An entry may have been pushed from either end of its edge: attach whichever
+        // end is not yet in the tree (skip the entry if both already are).
+        let src_in = *in_tree.get(&src).unwrap_or(&false);
+        let dst_in = *in_tree.get(&dst).unwrap_or(&false);
+        let new_node = match (src_in, dst_in) {
+            (true, false) => dst,
+            (false, true) => src,
+            _ => continue,
+        };
 
         // Add edge to MST
-        in_tree.insert(dst, true);
+        in_tree.insert(new_node, true);
         mst_edges.push((src, dst, edge_id, weight));
         total_weight += weight;
 
         // Add edges from new node
-        for (neighbor, new_edge_id) in store.edges_from(dst, Direction::Outgoing) {
+        for (neighbor, new_edge_id) in store.edges_from(new_node, Direction::Outgoing) {
             if !*in_tree.get(&neighbor).unwrap_or(&false) {
                 let new_weight = extract_weight(store, new_edge_id, weight_property);
-                heap.push(MinScored::new(new_weight, (dst, neighbor, new_edge_id)));
+                heap.push(MinScored::new(new_weight, (new_node, neighbor, new_edge_id)));
             }
         }
 
@@ -240,9 +245,9 @@ pub fn prim(store: &LpgStore, weight_property: Option<&str>, start: Option<NodeI
         for &other in &nodes {
             if !*in_tree.get(&other).unwrap_or(&false) {
                 for (neighbor, new_edge_id) in store.edges_from(other, Direction::Outgoing) {
-                    if neighbor == dst {
+                    if neighbor == new_node {
                         let new_weight = extract_weight(store, new_edge_id, weight_property);
-                        heap.push(MinScored::new(new_weight, (other, dst, new_edge_id)));
+                        heap.push(MinScored::new(new_weight, (other, new_node, new_edge_id)));
                     }
                 }
             }
